@@ -108,7 +108,7 @@ TCall == /\ IsEvent("call") /\ E.site \notin {"Pre", "Post"} /\ phase = "body"
 \* C10: the postprocess hook runs last, once, after every field has been assigned
 TPost == /\ IsEvent("call") /\ E.site = "Post" /\ phase = "body" /\ cur.post.on
          /\ (On("errors") => failed = "nil")
-         /\ (On("hooks") => done = Sites /\ (\A p \in DOMAIN AllAssigned \ Undefined : E.seen[p] = AllAssigned[p]) /\ E.srcSeen = cur.src /\ E.argsSeen = cur.post.hargs)
+         /\ (On("hooks") => done = Sites /\ (\A p \in DOMAIN AllAssigned \ Undefined : E.seen[p] = AllAssigned[p] \/ (p \in OptLeaves /\ E.seen[p] = AfterPre[p])) /\ E.srcSeen = cur.src /\ E.argsSeen = cur.post.hargs)
          /\ (E.fail => cur.post.err)
          /\ phase' = "post" /\ failed' = (IF E.fail /\ failed = "nil" THEN "Post" ELSE failed) /\ UNCHANGED <<cur, done>>
 
